@@ -15,7 +15,11 @@ Case (JSON):
    "race": {"job": tag, "round": r, "hold": tag2} | absent,  # let `tag` fail *during* the poll of round r, while the
                                                           #   submitter is inside its second read of the status of `hold`
                                                           #   (default: of `tag` itself) in that poll (class Racer)
-   "policy": {"seed": n, "style": "random" | "fifo" | "greedy" | "lazy"}}
+   "back": [[node, field_index, later_node]] | absent,    # `node.inputs.d<i> = later_node.out` after all nodes exist (C18: cycles)
+   "typed": bool,                                         # use the typed task BodyT (typed back edges are refused at construction)
+   "n_procs": n | absent,                                 # size of the controlled worker's pool (default min(jobs, k + 1))
+   "worker": "debug" | "cf", "log": bool                  # free-running case under an unmodified worker (run_free)
+   "policy": {"seed": n, "style": "random" | "fifo" | "greedy" | "lazy" | "failslast"}}
 
 A *tag* names a body: "<node>" or "<node>.<split value>".
 This module is imported both by the harness and (with `python -m harness.engines.sched`) by the child
